@@ -54,7 +54,10 @@ func Variants() []Variant { return variants() }
 func Parts() []mc.Part {
 	var ps []mc.Part
 	for _, v := range variants() {
-		ps = append(ps, mc.ExplorePart(v.Name, New(v), v.DepthQ, v.DepthT, true, rule))
+		// conformance: signed transactions through FinalizeBlock/Commit of the full app; the seam runs under the
+		// signed bytes because feed contexts and their requests are identified by hashes of the transaction bytes
+		ps = append(ps, mc.ExplorePartC(v.Name, New(v), v.DepthQ, v.DepthT, true, rule,
+			&mc.ConfOpts{Stores: []string{"oracle", "service"}, MaxPaths: 60, SignInSeam: true, Depth: 3}))
 	}
 	return ps
 }
